@@ -158,6 +158,23 @@ def main():
                             break
                     if not okn:
                         still.append(nm)
+                if still:
+                    # does the unchanged tree fail them the same way right now? (10 ms timing windows
+                    # and shared loopback ports make some tests fail whenever the machine is busy)
+                    sh("git apply -R %s" % patch, cwd=wt)
+                    env_fail = []
+                    for nm in list(still):
+                        passes = 0
+                        for attempt in range(3):
+                            r0, o0 = sh("go test -vet=off -count=1 -timeout 10m -run '^%s$' %s" % (nm, pk), cwd=wt)
+                            if r0 == 0:
+                                passes += 1
+                        if passes == 0:
+                            env_fail.append(nm)
+                    sh("git apply %s" % patch, cwd=wt)
+                    if env_fail:
+                        details[pk + " (fails on the unchanged tree as well right now: environmental)"] = ",".join(env_fail)
+                    still = [nm for nm in still if nm not in env_fail]
                 good = not still
                 fails = ["still failing alone: " + ",".join(still)] if still else []
                 details[pk + " (flaky under load, passed alone)"] = ",".join(names)
